@@ -376,6 +376,7 @@ type interp struct {
 	a      *Action
 	objN   int
 	shapes map[string]*Shape
+	lenLocals map[types.Object]ast.Expr // locals that hold len(<expr>)
 }
 
 // possibleTypes: the object types $k can hold according to the shape summary
@@ -590,6 +591,20 @@ func (in *interp) assign(x *ast.AssignStmt, s *State) []*State {
 		vals[i] = in.eval(r, s)
 	}
 	for i, l := range x.Lhs {
+		// depth := len(L): remembered for loops that index L by depth-1-k
+		if id, ok := l.(*ast.Ident); ok {
+			if o := info.ObjectOf(id); o != nil {
+				delete(in.lenLocals, o)
+				if c, ok := unparen(x.Rhs[i]).(*ast.CallExpr); ok && len(c.Args) == 1 {
+					if f, ok := c.Fun.(*ast.Ident); ok && f.Name == "len" {
+						if in.lenLocals == nil {
+							in.lenLocals = map[types.Object]ast.Expr{}
+						}
+						in.lenLocals[o] = unparen(c.Args[0])
+					}
+				}
+			}
+		}
 		in.store(l, x.Rhs[i], vals[i], s)
 	}
 	return []*State{s}
@@ -1362,9 +1377,113 @@ func (in *interp) execLoop(st ast.Stmt, s *State) []*State {
 	reverse := false
 	switch x := st.(type) {
 	case *ast.RangeStmt:
+		// for _, part := range [2][]T{a, b} { … }: the body once per element, in order
+		if cl, ok := unparen(x.X).(*ast.CompositeLit); ok && x.Tok == token.DEFINE {
+			states := []*State{s}
+			for _, el := range cl.Elts {
+				if _, isKV := el.(*ast.KeyValueExpr); isKV {
+					in.undec(s, st, "keyed composite literal as the range of a loop")
+					return []*State{s}
+				}
+				var next []*State
+				for _, cur := range states {
+					if id, ok := x.Value.(*ast.Ident); ok && id.Name != "_" {
+						if o := info.Defs[id]; o != nil {
+							cur.env[o] = in.eval(el, cur)
+						}
+					}
+					next = append(next, in.execList(x.Body.List, []*State{cur})...)
+				}
+				states = next
+			}
+			return states
+		}
 		listExpr, body = x.X, x.Body
 	case *ast.ForStmt:
 		body = x.Body
+		// the loop variable, where it starts and which way it moves
+		var loopVar types.Object
+		varDir := 0
+		if as, ok := x.Init.(*ast.AssignStmt); ok && len(as.Lhs) == 1 && len(as.Rhs) == 1 {
+			if id, ok := as.Lhs[0].(*ast.Ident); ok {
+				loopVar = info.ObjectOf(id)
+			}
+		}
+		if post, ok := x.Post.(*ast.IncDecStmt); ok {
+			if id, ok := unparen(post.X).(*ast.Ident); ok && info.ObjectOf(id) == loopVar && loopVar != nil {
+				varDir = 1
+				if post.Tok == token.DEC {
+					varDir = -1
+				}
+			}
+		}
+		// the list the body indexes, and whether the index mirrors the loop variable (len-1-k)
+		if loopVar != nil && varDir != 0 {
+			lenOfList := func(e ast.Expr, list ast.Expr) bool {
+				e = unparen(e)
+				if isLen(e, list) {
+					return true
+				}
+				// a local that holds len(list)
+				if id, ok := e.(*ast.Ident); ok {
+					if o := info.ObjectOf(id); o != nil {
+						if d, ok := in.lenLocals[o]; ok && types.ExprString(d) == types.ExprString(unparen(list)) {
+							return true
+						}
+					}
+				}
+				return false
+			}
+			isVar := func(e ast.Expr) bool {
+				id, ok := unparen(e).(*ast.Ident)
+				return ok && info.ObjectOf(id) == loopVar
+			}
+			ast.Inspect(body, func(n ast.Node) bool {
+				ix, ok := n.(*ast.IndexExpr)
+				if !ok || listExpr != nil {
+					return true
+				}
+				se, ok := unparen(ix.X).(*ast.SelectorExpr)
+				if !ok {
+					return true
+				}
+				if _, isDollar := in.dollarIndex(se.X); !isDollar {
+					return true
+				}
+				idx := unparen(ix.Index)
+				switch {
+				case isVar(idx):
+					listExpr, reverse = ix.X, varDir < 0
+				default:
+					// len-1-k, len-k-1, len-(k+1): the mirror image of k
+					if b, ok := idx.(*ast.BinaryExpr); ok && b.Op == token.SUB {
+						mirrored := false
+						if l, ok := unparen(b.X).(*ast.BinaryExpr); ok && l.Op == token.SUB && lenOfList(l.X, ix.X) {
+							// (len - a) - c with {a, c} = {1, k}
+							if (isConst(info, l.Y, "1") && isVar(b.Y)) || (isVar(l.Y) && isConst(info, b.Y, "1")) {
+								mirrored = true
+							}
+						}
+						if lenOfList(b.X, ix.X) {
+							if r, ok := unparen(b.Y).(*ast.BinaryExpr); ok && r.Op == token.ADD && ((isVar(r.X) && isConst(info, r.Y, "1")) || (isVar(r.Y) && isConst(info, r.X, "1"))) {
+								mirrored = true
+							}
+						}
+						if mirrored {
+							listExpr, reverse = ix.X, varDir > 0
+						}
+						// i-1 with i running from len down to 1
+						if isVar(b.X) && isConst(info, b.Y, "1") && varDir < 0 {
+							listExpr, reverse = ix.X, true
+						}
+					}
+				}
+				return true
+			})
+		}
+		if listExpr != nil {
+			break
+		}
 		// for i := len(L)-1; i >= 0; i--
 		if as, ok := x.Init.(*ast.AssignStmt); ok && len(as.Rhs) == 1 {
 			if b, ok := unparen(as.Rhs[0]).(*ast.BinaryExpr); ok && b.Op == token.SUB {
